@@ -468,7 +468,11 @@ where
 
         let stored_to = to.min(stored_len);
         let mut hole_iter = self.holes().range(from..to).peekable();
-        let mut update_iter = self.updated().range(from..stored_to).peekable();
+        // `from` may lie in the pushed part (from > stored_to): an inverted range panics.
+        let mut update_iter = self
+            .updated()
+            .range(from.min(stored_to)..stored_to)
+            .peekable();
 
         let mut byte_off = from * Self::SIZE_OF_T;
         for i in from..stored_to {
@@ -522,7 +526,11 @@ where
 
         let stored_to = to.min(stored_len);
         let mut hole_iter = self.holes().range(from..to).peekable();
-        let mut update_iter = self.updated().range(from..stored_to).peekable();
+        // `from` may lie in the pushed part (from > stored_to): an inverted range panics.
+        let mut update_iter = self
+            .updated()
+            .range(from.min(stored_to)..stored_to)
+            .peekable();
 
         let mut byte_off = from * Self::SIZE_OF_T;
         for i in from..stored_to {
